@@ -396,6 +396,13 @@ VSgetdatainfo(int32 vsid, unsigned start_block, unsigned info_count, int32 *offs
             HGOTO_ERROR(DFE_INTERNAL, FAIL);
     }
 
+    /* The vdata's data has been moved to an external file: none of it is in
+       this file, so there is no block to report (as HDgetdatainfo does for an
+       external element) */
+    else if (access_rec->special == SPECIAL_EXT) {
+        count = 0;
+    }
+
     /* The vdata is stored in contiguous block */
     else {
         if (offsetarray != NULL && lengtharray != NULL) {
